@@ -17,6 +17,7 @@ import (
 	"k8s.io/apimachinery/pkg/runtime"
 	k8sjson "k8s.io/apimachinery/pkg/util/json"
 
+	dynamicinformer "metacontroller/pkg/dynamic/informer"
 	vh "metacontroller/pkg/internal/verifh"
 	sim "metacontroller/pkg/internal/verifsim"
 )
@@ -265,6 +266,13 @@ type c16RoundSpec struct {
 	LateOps []c16ExtOp            `json:"lateOps"` // after the caches are taken, before the sync starts
 	MidOps  map[string][]c16ExtOp `json:"midOps"`  // request index -> ops applied just before that request
 	FaultOn []c16FaultOn          `json:"faultOn"`
+	// SameController: the sync runs on the controller (and informer caches) of the previous round: no watch
+	// event has refreshed anything in between
+	SameController bool `json:"sameController"`
+	// OtherFirst: the second decorator (scenario.other) shares the informers with the decorator under test and
+	// syncs the target first, unrecorded; OtherFault, if set, fails its matching request
+	OtherFirst bool        `json:"otherFirst"`
+	OtherFault *c16FaultOn `json:"otherFault"`
 	// HideDiscovery: "apiVersion|resource" entries that discovery stops listing after the controller was
 	// built and before the sync (shown again afterwards)
 	HideDiscovery []string `json:"hideDiscovery"`
@@ -409,16 +417,61 @@ func c16RunScenario(sc *c16Scenario) (*c16CaseRec, error) {
 		out.Final = w.srv.AllLive()
 		return out, nil
 	}
-	for _, r := range sc.Rounds {
+	var prev *c16Built
+	defer func() {
+		if prev != nil {
+			prev.close()
+		}
+	}()
+	for ri, r := range sc.Rounds {
 		for _, op := range r.PreOps {
 			w.applyExt(op)
 		}
 		if !r.Stale {
 			w.freezeViews()
 		}
-		b, err := w.c16Build(&sc.Ctl)
-		if err != nil {
-			return nil, err
+		var b *c16Built
+		var other *c16Built
+		var err error
+		switch {
+		case r.SameController && prev != nil:
+			b, prev = prev, nil
+		case r.OtherFirst && sc.Other != nil:
+			factory := dynamicinformer.NewSharedInformerFactory(w.dynClient, time.Hour)
+			if b, err = w.c16BuildShared(&sc.Ctl, factory); err != nil {
+				return nil, err
+			}
+			if other, err = w.c16BuildShared(sc.Other, factory); err != nil {
+				return nil, err
+			}
+		default:
+			if b, err = w.c16Build(&sc.Ctl); err != nil {
+				return nil, err
+			}
+		}
+		if prev != nil {
+			prev.close()
+			prev = nil
+		}
+		if other != nil {
+			// the co-decorator's sync, from the shared caches; its write may be made to fail
+			if fo := r.OtherFault; fo != nil {
+				hit := 0
+				w.srv.SetBeforeRequest(func(n int, verb, apiVersion, kind, ns, name string) *sim.Fault {
+					if fo.Verb == verb && fo.Kind == kind {
+						hit++
+						if hit-1 == fo.Nth {
+							return &sim.Fault{Code: fo.Code, Reason: fo.Reason}
+						}
+					}
+					return nil
+				})
+			}
+			func() {
+				defer func() { recover() }()
+				_ = other.dc.sync(key)
+			}()
+			w.srv.SetBeforeRequest(nil)
 		}
 		for _, op := range r.LateOps {
 			w.applyExt(op)
@@ -457,7 +510,14 @@ func c16RunScenario(sc *c16Scenario) (*c16CaseRec, error) {
 		}
 		rec := w.runSync(&sc.Ctl, b, k)
 		w.srv.SetBeforeRequest(nil)
-		b.close()
+		if other != nil {
+			other.close()
+		}
+		if ri+1 < len(sc.Rounds) && sc.Rounds[ri+1].SameController {
+			prev = b // kept alive for the next round
+		} else {
+			b.close()
+		}
 		if err := hideAll(false); err != nil {
 			return nil, err
 		}
